@@ -269,7 +269,11 @@ impl Scenario for ReadScenario {
                         if rng.bool() {
                             script.push(simple_request(refapp::FUNC_DELAY_MEASURE, vec![]));
                         } else {
-                            script.push(Op::Disconnect { eof: rng.bool() });
+                            // a cut, or a new connection that replaces the running one (the session's future is dropped where
+                            // it stands, e.g. in the middle of a series)
+                            if rng.bool() {
+                                script.push(Op::Disconnect { eof: rng.bool() });
+                            }
                             script.push(Op::Connect);
                         }
                     }
